@@ -16,3 +16,6 @@ pub mod aws;
 pub mod volume;
 
 pub mod result;
+
+#[cfg(feature = "verif-hooks")]
+pub mod verif_hooks;
